@@ -109,7 +109,7 @@ def _lists(draw):
     }
 
 
-CFG_SIM = gen.Cfg(unit_time=6, warm_modes=["morph", "graft", "carry", "append", "nolog"], warm=3, onesided=3, facilities=True, max_workers=4, min_tasks=3, max_time=[30], p_auto=12, tie_rich=4, kinds=[0, 0, 0, 1])
+CFG_SIM = gen.Cfg(unit_time=6, warm_modes=["morph", "graft", "carry", "append", "nolog", "cutrerun"], warm=3, onesided=3, facilities=True, max_workers=4, min_tasks=3, max_time=[30], p_auto=12, tie_rich=4, kinds=[0, 0, 0, 1])
 
 
 @st.composite
